@@ -23,6 +23,12 @@ def run(ctx):
                 if q and kind not in ('set', 'map2mc') and (n + ctx.seed) % 3 != 0:
                     continue
                 jobs.append('%s/%s;%s' % (kind, r, p))
+    # std::string keys (heap-allocated): an iterator that keeps a reference into a node it no longer guards reads a destroyed key - with the
+    # type-stable node memory of lock_free_ref_count only the key's own buffer tells (seeded change c09_6: `const Key& key = info.cur->key` in operator++)
+    for kind in ('sset', 'smap1nc', 'smap2mh'):
+        for r in (('lfrc', 'hp3') if q else RECL):
+            for p in (PROGS if kind == 'sset' or not q else PROGS[:4]):
+                jobs.append('%s/%s;%s' % (kind, r, p))
     run_hm(ctx, jobs, pb=2 if q else 3, max_exec=250 if q else 20000)
     # A: the same iterator programs with address reuse (xvrt --reuse, see C08): a guard dropped too early shows as a traversal that continues in a NEW
     # node at the old address
